@@ -8,12 +8,13 @@ import vf
 GROUP = "SqlGen"
 THEOREMS = ["C14_ident_confined", "C14_string_confined", "C14_filter_confined", "C14_confinement",
             "C14_insert_confined", "C14_update_confined", "C14_old_refuted",
-            "C14_filter_meaning_partial", "C14_filter_rows_partial", "C14_filter_meaning_refuted", "C14_gen_where_confined",
-            "C14_where_parses_partial", "C14_filter_text_meaning_partial"]
+            "C14_filter_meaning_partial", "C14_filter_rows_partial", "C14_gen_where_confined",
+            "C14_where_parses_partial", "C14_filter_text_meaning_partial",
+            "C14_filter_meaning", "C14_filter_rows", "C14_filter_meaning_old_refuted", "C14_where_parses", "C14_filter_text_meaning"]
 META = {
     "group": GROUP,
     "technique": "Coq proof of lexical confinement of the generated SQL text over a Gallina model of the generators and of SQLite's tokenizer + vm_compute correspondence with the real generators + execution of the real text on SQLite under an authorizer",
-    "text": "Theorems C14_ident_confined / C14_string_confined (a quoted name or value is exactly one SQLite token whatever its bytes), C14_filter_confined (every filter token list, any spellings and classes, yields text that lexes to the template: one token per name/value), C14_confinement (SELECT/DELETE statement: columns, table, filters, sort, paging), C14_insert_confined and C14_update_confined are proved for all inputs without NUL bytes over the model of the repaired generators; C14_old_refuted keeps the three injections of the code before the fixes. Meaning of filters (Sem.v): for the documented filter language (EQ LT LE GT GE AND OR NOT HAS HASALL, EQ(col,.nil)) with a three-valued eval_filter, SQL expressions with SQLite's three-valued semantics (eval_sql) and where_ast = what SQL's precedence makes of the generated text, C14_filter_meaning_partial / C14_filter_rows_partial prove for all filters, rows and NULLs that the WHERE clause selects exactly the rows every filter selects whenever safe_where holds (no multi-value HAS under AND / NOT / next to another filter, no multi-value HASALL under NOT); C14_filter_meaning_refuted: AND(EQ(a,1),HAS(foo,'x','y')) selects a row that does not satisfy it (known finding filter-precedence, replayed on SQLite); C14_gen_where_confined: the text of gen_where lexes to its template. The models are compared byte for byte with the real generators on every run, the real text is lexed against the template, parsed to where_ast, and executed on SQLite (authorizer; rows returned vs eval_filter). C14_where_parses_partial / C14_filter_text_meaning_partial: for filters whose parts are all atoms (comparisons, null tests, AND/OR lists, NOT, single-value HAS/HASALL) the generated TEXT, lexed by the SQLite tokenizer model and parsed with SQL's precedence, is an expression that selects exactly the documented rows. partial: for multi-value HAS/HASALL the link text -> where_ast is only checked by vm_compute for every generated filter list; POSITION(v IN c) is given PostgreSQL's meaning (SQLite has no such function: there HAS filters are rejected by the database); the handlers around the generators are only observed",
+    "text": "Theorems C14_ident_confined / C14_string_confined (a quoted name or value is exactly one SQLite token whatever its bytes), C14_filter_confined (every filter token list, any spellings and classes, yields text that lexes to the template: one token per name/value), C14_confinement (SELECT/DELETE statement: columns, table, filters, sort, paging), C14_insert_confined and C14_update_confined are proved for all inputs without NUL bytes over the model of the repaired generators; C14_old_refuted keeps the three injections of the code before the fixes. Meaning of filters (Sem.v, SemProofs.v, SemParse.v): for the documented filter language (EQ LT LE GT GE AND OR NOT HAS HASALL, EQ(col,.nil)) with a three-valued eval_filter, SQL expressions with SQLite's three-valued semantics (eval_sql) and where_ast = what SQL's precedence makes of the generated text, C14_filter_meaning / C14_filter_rows prove for ALL non-empty lists of well formed filters, all rows and NULLs that the WHERE clause of the repaired generator selects exactly the rows every filter selects (no precedence guard any more: multi-value HAS/HASALL lists are parenthesised since fix 1d8718e7); C14_where_parses / C14_filter_text_meaning: the generated TEXT, lexed by the SQLite tokenizer model and parsed with SQL's precedence, is where_ast, hence an expression selecting exactly the documented rows, for all well formed filters without NUL bytes; C14_filter_meaning_old_refuted keeps the old generator (AND(EQ(a,1),HAS(foo,'x','y')) selected a row that does not satisfy it); C14_gen_where_confined: the text of gen_where lexes to its template. The models are compared byte for byte with the real generators on every run, the real text is lexed against the template, parsed to where_ast by both parsers, and executed on SQLite (authorizer; rows returned vs eval_filter vs an independent Python reading). partial: gen_where is tied to the real WhereClause by the run, not by a theorem to the token-level where_clause model; POSITION(v IN c) is given PostgreSQL's meaning (SQLite has no such function: there HAS filters are rejected by the database; the run spells it instr); type-affinity conversions are outside the well typed filters of the run; the handlers around the generators are only observed",
     "note": "Trusted: Coq kernel; the hand-written model of SQLite's tokenizer (exponent / hex numbers are illegal tokens in it); strings.TrimSpace/ToLower/ToUpper modelled on ASCII (plus U+0131, U+017F); valid UTF-8 input; statement text reaches SQLite whole; the overlay harness and the Python comparison.",
 }
 
@@ -414,9 +415,7 @@ def m_shape(f):
         return "atom"
     if k == "not":
         return m_shape(f[1])
-    if len(f[3]) == 1:
-        return "atom"
-    return "conj" if f[1] else "disj"
+    return "atom"          # repaired generator: a list of several values is parenthesised
 
 
 def m_safe(f):
